@@ -37,3 +37,6 @@ func VerifC43Record(vers uint16, content, pad []byte) (full []byte, ok bool, ale
 	ok, _, al := hc.decrypt(b)
 	return full, ok, int(al)
 }
+
+// VerifRemovePaddingSSL30 exposes removePaddingSSL30 (C43).
+func VerifRemovePaddingSSL30(payload []byte) ([]byte, byte) { return removePaddingSSL30(payload) }
